@@ -668,7 +668,18 @@ func (r *reporter) roundTripSource(stage string, src influxql.Source, base canon
 			var back []influxql.Source
 			enc := query.EncodeSource([]influxql.Source{src})
 			s = enc[0]
-			if back, err = query.DecodeSource(enc); err == nil && len(back) == 1 {
+			// LogicalSubQuery ships them in a QueryNode message; decode it from a pooled buffer that is reused at once
+			rb := &recvBuf{}
+			var wire []byte
+			if wire, err = proto.Marshal(&internal.QueryNode{Source: enc}); err != nil {
+				return
+			}
+			var pb internal.QueryNode
+			if err = rb.deliver(wire, func(payload []byte) error { return proto.Unmarshal(payload, &pb) }); err != nil {
+				return
+			}
+			rb.overwrite()
+			if back, err = query.DecodeSource(pb.GetSource()); err == nil && len(back) == 1 {
 				got = back[0]
 			}
 			return
